@@ -29,8 +29,17 @@ class Acct:
     def __init__(self, fn, dest, count, unit, src=None, pre_lo=0, max_paths=4000):
         self.fn, self.unit, self.max_paths = fn, unit, max_paths
         P = fn.pnames
-        self.dest, self.count = P[dest]["id"], P[count]["id"]
+        self.dest = P[dest]["id"] if dest else None
+        self.count = P[count]["id"] if count else None
         self.src = P[src]["id"] if src else None
+        self.roots = {}
+        if self.dest:
+            self.roots[self.dest] = "D"
+        if self.src:
+            self.roots[self.src] = "S"
+        self.rootnames = set(self.roots.values())
+        self.calls_opaque = False
+        self._reads = None          # when a list: every load through a rooted pointer is appended as (root, offset, size, instruction)
         self.N = Lin.atom("N")
         self.T = self.N.scale(unit)
         self.base_facts = [self.N - Lin.const(pre_lo)]
@@ -40,10 +49,6 @@ class Acct:
         self.bitatoms = {}          # atom -> ("xorm"|"orm", a, b, k)
         self.nfresh = 0
         self.stats = dict(loops=0, iteration_paths=0, stores=0, obligations=0)
-        for h, L in fn.loops.items():
-            for h2, L2 in fn.loops.items():
-                if h != h2 and h2 in L["_set"]:
-                    raise Broken("nested loops in %s" % fn.name)
 
     # ---- problems ----------------------------------------------------------------------------------------------------------------
     def problem(self, kind, where, text):
@@ -74,10 +79,8 @@ class Acct:
             return env[v]
         if v == self.count:
             return self.N
-        if v == self.dest:
-            return ("D", Lin.const(0))
-        if v == self.src:
-            return ("S", Lin.const(0))
+        if v in self.roots:
+            return (self.roots[v], Lin.const(0))
         if v in self.fn.params:
             r = Lin.atom("param:" + v)
             env[v] = r
@@ -89,6 +92,10 @@ class Acct:
             r = Lin.atom("ext:" + v)          # defined outside the region being evaluated (loop-invariant value)
             env[v] = r
             return r
+        if d.get("ty", "").endswith("*") and self.families().get(v):
+            r = (self.families()[v], Lin.atom("ext:" + v))          # a pointer of known origin defined outside the region (loop-invariant)
+            env[v] = r
+            return r
         raise Broken("%s used before it was evaluated on this path (%s)" % (v, d["op"]))
 
     def exec_inst(self, i, env, facts, writes, where_ok=True):
@@ -98,7 +105,7 @@ class Acct:
             return
         if op == "store":
             p = self.val(i["ops"][1], env, facts)
-            if isinstance(p, tuple) and p[0] in ("D", "S"):
+            if isinstance(p, tuple) and p[0] in self.rootnames:
                 if p[0] == "S":
                     self.problem("store-into-source", fn.loc(i), "%s stores through a pointer derived from its source operand" % fn.name)
                     return
@@ -114,7 +121,13 @@ class Acct:
                 if cal.startswith("llvm.mem"):
                     raise Broken("library memory intrinsic inside a primitive (%s)" % cal)
                 return
-            raise Broken("call to %s inside a primitive" % cal)
+            if not self.calls_opaque:
+                raise Broken("call to %s inside a primitive" % cal)
+            if "id" in i and i.get("ty", "").startswith("i"):
+                env[i["id"]] = Lin.atom("call:%s" % i["id"])
+            elif "id" in i:
+                env[i["id"]] = None
+            return
         if "id" not in i:
             return
         r = None
@@ -122,12 +135,12 @@ class Acct:
             r = self.val(i["ops"][0], env, facts)
         elif op == "ptrtoint":
             p = self.val(i["ops"][0], env, facts)
-            r = Lin.atom("addr:" + p[0]) + p[1] if isinstance(p, tuple) and p[0] in ("D", "S") else None
+            r = Lin.atom("addr:" + p[0]) + p[1] if isinstance(p, tuple) and p[0] in self.rootnames else None
         elif op == "inttoptr":
             raise Broken("inttoptr in %s" % fn.name)
         elif op == "getelementptr":
             p = self.val(i["base"], env, facts)
-            if isinstance(p, tuple) and p[0] in ("D", "S"):
+            if isinstance(p, tuple) and p[0] in self.rootnames:
                 off = p[1] + Lin.const(i.get("coff", 0))
                 for t in i.get("terms", ()):
                     x = self.val(t["v"], env, facts)
@@ -137,8 +150,10 @@ class Acct:
                 r = (p[0], off)
         elif op == "load":
             p = self.val(i["ops"][0], env, facts)
-            if isinstance(p, tuple) and p[0] in ("D", "S"):
+            if isinstance(p, tuple) and p[0] in self.rootnames:
                 r = ("ld", p[0], p[1], i["size"])
+                if self._reads is not None:
+                    self._reads.append((p[0], p[1], i["size"], i))
             else:
                 r = None
         elif op in ("add", "sub"):
@@ -188,7 +203,8 @@ class Acct:
             if isinstance(a, Lin) and isinstance(b, Lin):
                 r = ("cmp", i["pred"], a, b)
         elif op == "select":
-            raise Broken("select in %s" % fn.name)
+            if not self.calls_opaque:
+                raise Broken("select in %s" % fn.name)
         if r is None and i.get("ty", "").startswith("i") and i["ty"] != "i1" and op not in ("load",):
             self.nfresh += 1
             r = Lin.atom("opaque:%s" % i["id"])
@@ -329,7 +345,7 @@ class Acct:
         o = next(x["v"] for x in phi["incoming"] if x["bb"] == bb)
         return self.val(o, env, facts)
 
-    def _iter_paths(self, h, bb, pred, env, facts, writes, out, L, first=False):
+    def _iter_paths(self, h, bb, pred, env, facts, writes, out, L, first=False, exits=None):
         fn = self.fn
         if len(out) > 400:
             raise Broken("more than 400 iteration paths in loop %s" % h)
@@ -348,7 +364,9 @@ class Acct:
             if sc == h:
                 out.append((f2, env, writes, bb))
             elif sc in L:
-                self._iter_paths(h, sc, bb, env, f2, writes, out, L)
+                self._iter_paths(h, sc, bb, env, f2, writes, out, L, exits=exits)
+            elif exits is not None:
+                exits.append((f2, env, writes, bb, sc))
 
     def _succs(self, bb, env, facts):
         fn = self.fn
@@ -386,9 +404,7 @@ class Acct:
         if hasattr(self, "_fam"):
             return self._fam
         fn = self.fn
-        fam = {self.dest: "D"}
-        if self.src:
-            fam[self.src] = "S"
+        fam = dict(self.roots)
         changed = True
         while changed:
             changed = False
@@ -411,6 +427,10 @@ class Acct:
     # ---- the function walk -------------------------------------------------------------------------------------------------------
     def run(self):
         fn = self.fn
+        for h, L in fn.loops.items():
+            for h2, L2 in fn.loops.items():
+                if h != h2 and h2 in L["_set"]:
+                    raise Broken("nested loops in %s" % fn.name)
         self._walk(fn.entry, None, {}, list(self.base_facts) + [self.N], [], None, 0)
         return dict(function=fn.name, paths=self.paths, loops=self.stats["loops"], iteration_paths=self.stats["iteration_paths"],
                     store_sites_walked=self.stats["stores"], wrap_obligations=self.stats["obligations"],
@@ -446,7 +466,7 @@ class Acct:
                 if p["id"] == S["counter"]:
                     continue
                 pv = self._incoming(p, pred, env, facts)
-                if not (isinstance(pv, tuple) and pv[0] in ("D", "S")):
+                if not (isinstance(pv, tuple) and pv[0] in self.rootnames):
                     raise Broken("loop %s entered with a cursor of unknown origin" % bb)
                 ins[p["id"]] = pv
             dcur = [k for k, v in ins.items() if v[0] == "D"]
